@@ -51,6 +51,11 @@ CAUSES["C04"] = [
 ]
 
 
+CAUSES["C05"] = [
+    (("split/led_in_loop_stateful",), "a device declared at the top of the loop body keeps its state across passes on the device; Python re-creates the object (state reset) every pass"),
+]
+
+
 def main():
     prop = sys.argv[1]
     path = os.path.join(ROOT, "known_findings.json")
